@@ -65,9 +65,9 @@ def prop(pid, **kw):
 
 
 prop("C01",
-     specgen=(40, 500),
+     specgen=(40, 1500),
      scripts=lambda tier, rnd: S.basic() + S.collision() + S.stop_points() + S.reaction_table() + S.gated() + S.api_races() + S.two_sessions() + S.pm_busy() + S.pm_gates() +
-     sample(S.pacing(), rnd, 200 if tier == "thorough" else 30) + S.collision_racy(rnd, 60 if tier == "thorough" else 10) +
+     sample(S.pacing(), rnd, 200 if tier == "thorough" else 30) + S.collision_racy(rnd, 400 if tier == "thorough" else 10) +
      (S.damping() + S.writers() + S.registry(rnd, 120) if tier == "thorough" else sample(S.damping(), rnd, 10)),
      mc=lambda tier: [mc_pair(["openLo", "ka"])] if tier == "quick" else
      [mc_pair(["openLo", "ka", "upd"], dials=2), mc_pair(["openHi", "ka", "cease"], dials=2),
@@ -78,10 +78,10 @@ prop("C01",
           "code; non-trivial = the recorded trace contains at least one OnEstablished callback; distinct by script content hash")
 
 prop("C07",
-     specgen=(30, 300),
+     specgen=(30, 800),
      scripts=lambda tier, rnd: S.collision() + [x for x in S.gated() if "collision" in x["tags"]] + S.pm_busy() + S.pm_gates() +
      [x for x in S.stop_dial_race(6 if tier == "thorough" else 3) if "-est-" in x["id"]] +
-     (S.collision_racy(rnd, 60 if tier == "thorough" else 8)),
+     (S.collision_racy(rnd, 400 if tier == "thorough" else 8)),
      mc=lambda tier: [mc_pair(["openLo", "ka"])] if tier == "quick" else
      [mc_pair(["openLo", "ka", "cease"], dials=2), mc_pair(["openHi", "ka", "cease"], dials=2),
       mc_pair(["openLo", "openHi", "ka"], dials=1)],
@@ -91,9 +91,9 @@ prop("C07",
           "accepted (two OnOpenMessage callbacks)")
 
 prop("C09",
-     specgen=(40, 500),
+     specgen=(40, 1200),
      scripts=lambda tier, rnd: S.reaction_table() + S.fin_mid_message() + sample(S.two_sessions(), rnd, 21 if tier == "thorough" else 8) +
-     (S.notif_values(rnd, 200 if tier == "thorough" else 30)) +
+     (S.notif_values(rnd, 600 if tier == "thorough" else 30)) +
      sample(S.trailing(), rnd, 176 if tier == "thorough" else 30) + sample(S.pacing(), rnd, 60 if tier == "thorough" else 15),
      mc=lambda tier: [mc_pair(["openLo", "ka", "upd"], conns=1, msgs=3)] if tier == "quick" else
      [mc_pair(["openLo", "ka", "upd", "cease", "notif", "fault", "openBad"], conns=1, msgs=3, dials=2),
@@ -103,9 +103,9 @@ prop("C09",
           "probe; non-trivial = the script reached the cell's state and delivered the message")
 
 prop("C10",
-     specgen=(40, 500),
+     specgen=(40, 1500),
      scripts=lambda tier, rnd: S.stop_points() + S.gated() + S.api_races() + S.pm_busy() + S.pm_gates() + S.close_race_connect(12 if tier == "thorough" else 4) + S.stop_dial_race(12 if tier == "thorough" else 3) +
-     S.stop_everywhere(rnd, 400 if tier == "thorough" else 60),
+     S.stop_everywhere(rnd, 1200 if tier == "thorough" else 60),
      mc=lambda tier: [mc_pair(["openLo", "ka"])] if tier == "quick" else
      [mc_pair(["openLo", "ka", "upd"], dials=2), mc_pair(["openHi", "ka", "notif"], dials=2),
       mc_api(5, ops=("addPeer", "deletePeer", "serve", "close"))],
@@ -116,9 +116,9 @@ prop("C10",
           "the end of every script; non-trivial = a Close or DeletePeer returned in the trace")
 
 prop("C12",
-     specgen=(30, 400),
-     scripts=lambda tier, rnd: S.damping() + S.damping_exact() + S.pm_gates() + sample(S.fin_mid_message(), rnd, 24 if tier == "thorough" else 8) + (S.damping_matrix() if tier == "thorough" else sample(S.damping_matrix(), rnd, 60)) + S.collision_racy(rnd, 40 if tier == "thorough" else 12) +
-     (S.damping_random(rnd, 150) if tier == "thorough" else S.damping_random(rnd, 15)),
+     specgen=(30, 1000),
+     scripts=lambda tier, rnd: S.damping() + S.damping_exact() + S.pm_gates() + sample(S.fin_mid_message(), rnd, 24 if tier == "thorough" else 8) + (S.damping_matrix() if tier == "thorough" else sample(S.damping_matrix(), rnd, 60)) + S.collision_racy(rnd, 300 if tier == "thorough" else 12) +
+     (S.damping_random(rnd, 500) if tier == "thorough" else S.damping_random(rnd, 15)),
      mc=lambda tier: [mc_pair(["openLo", "ka", "notif"])] if tier == "quick" else
      [mc_pair(["openLo", "ka", "notif", "cease"], dials=2), mc_pair(["openLo", "ka", "fault", "openBad"], dials=2)],
      nontrivial=lambda s, r: "damp" in s.get("tags", ()) or "nodamp" in s.get("tags", ()),
@@ -126,7 +126,7 @@ prop("C12",
           "threshold (60 s, doubling, 300 s cap, 300 s amnesia), and non-damping faults; exact virtual time")
 
 prop("C11",
-     specgen=(30, 400),
+     specgen=(30, 1000),
      scripts=lambda tier, rnd: S.inbound_drop() + (S.pacing() if tier == "thorough" else sample(S.pacing(), rnd, 70)),
      mc=lambda tier: [mc_pair(["openLo", "ka", "cease"], conns=1, msgs=3, dials=3)] if tier == "quick" else
      [mc_pair(["openLo", "ka", "cease"], conns=2, msgs=2, dials=3)],
@@ -144,7 +144,7 @@ prop("C06",
           "KEEPALIVE and Hold Timer Expired NOTIFICATION must carry exactly the specified virtual timestamp")
 
 prop("C04",
-     scripts=lambda tier, rnd: S.writers() + S.two_sessions() + S.slow_callbacks() + S.writers_random(rnd, 120 if tier == "thorough" else 12),
+     scripts=lambda tier, rnd: S.writers() + S.two_sessions() + S.slow_callbacks() + S.writers_random(rnd, 500 if tier == "thorough" else 12),
      mc=lambda tier: [mc_pair(["openLo", "ka", "upd"], conns=1, msgs=3)],
      nontrivial=lambda s, r: any(e["e"] == "ret" and e["n"] in ("write", "writeCb") for e in syscheck.events_of(r)),
      rule="WriteUpdate from callbacks and from application goroutines x body lengths {0,1,4077} x keepalive collisions x "
@@ -152,7 +152,7 @@ prop("C04",
 
 prop("C03",
      scripts=lambda tier, rnd: S.segmentation(rnd) + S.two_sessions() + S.gated_update_eof() +
-     (S.segmentation_long(rnd, 10) if tier == "thorough" else []),
+     (S.segmentation_long(rnd, 40) if tier == "thorough" else []),
      mc=lambda tier: [mc_pair(["openLo", "ka", "upd"], conns=1, msgs=3)],
      nontrivial=lambda s, r: has_cb(r, "Update"),
      end_oracles={"intact"},
@@ -173,7 +173,7 @@ prop("C08",
 prop("C02",
      pure=["openval"],
      scripts=lambda tier, rnd: S.open_cases(rnd, limit_per_cfg=45, random_bodies=4) if tier == "quick" else
-     S.open_cases(rnd, random_bodies=60),
+     S.open_cases(rnd, random_bodies=200),
      mc=lambda tier: [mc_pair(["openLo", "openBad", "ka"], conns=1, msgs=3)],
      nontrivial=lambda s, r: True,
      rule="OPEN bodies from the field/TLV/perturbation builder (+ random bodies) x 5 AS/identifier configurations x direction, "
@@ -197,7 +197,7 @@ prop("C13",
 
 prop("C20",
      pure=["registry"],
-     scripts=lambda tier, rnd: S.registry(rnd, 60 if tier == "quick" else 600) + S.api_races() +
+     scripts=lambda tier, rnd: S.registry(rnd, 60 if tier == "quick" else 2000) + S.api_races() +
      [x for x in S.multi_listener() if "dual" in x["id"]],
      mc=lambda tier: [mc_api(4)] if tier == "quick" else
      [mc_api(4), mc_api(5, ops=("addPeer", "deletePeer", "serve", "close"))],
@@ -211,7 +211,7 @@ prop("C05",
      scripts=lambda tier, rnd: S.pm_busy() + S.pm_gates() + S.api_races() + S.close_race_connect(12 if tier == "thorough" else 4) +
      sample(S.pacing(), rnd, 120 if tier == "thorough" else 25) +
      sample(S.two_sessions(), rnd, 21 if tier == "thorough" else 6) + S.stop_dial_race(2) +
-     S.stop_everywhere(rnd, 200 if tier == "thorough" else 20) + S.fuzz(rnd, 400 if tier == "thorough" else 40) + S.message_grid(rnd, 300 if tier == "thorough" else 40) +
+     S.stop_everywhere(rnd, 600 if tier == "thorough" else 20) + S.fuzz(rnd, 1200 if tier == "thorough" else 40) + S.message_grid(rnd, 800 if tier == "thorough" else 40) +
      S.notif_values(rnd, 120 if tier == "thorough" else 20) + (S.trailing() if tier == "thorough" else sample(S.trailing(), rnd, 45)),
      mc=lambda tier: [mc_pair(["openLo", "ka", "fault"], conns=2, msgs=2)] if tier == "quick" else
      [mc_pair(["openLo", "ka", "fault", "notif"], conns=2, msgs=2), mc_pair(["openBad", "openLo", "ka", "upd", "cease"], conns=1, msgs=3, dials=2)],
